@@ -53,25 +53,23 @@ func c10CheckSection(idx int, m *kit.SDPMedia) (fs []c10Finding, nontrivial bool
 	}
 	for pt, n := range listed {
 		if n > 1 {
-			// observable split of causes: the same codec entry emitted twice vs. two different codecs on one number
+			shape := "the same codec entry twice"
 			variants := map[string]bool{}
-			for _, a := range m.Attrs {
-				if (a.Key == "rtpmap" || a.Key == "fmtp") && c10FirstToken(a.Value) == pt {
-					variants[a.Key+":"+a.Value] = true
+			for _, at := range m.Attrs {
+				if (at.Key == "rtpmap" || at.Key == "fmtp") && c10FirstToken(at.Value) == pt {
+					variants[at.Key+":"+at.Value] = true
 				}
 			}
-			sig := "duplicate-pt-in-mline:same-codec-twice"
-			distinctMaps := 0
+			dm := 0
 			for v := range variants {
 				if strings.HasPrefix(v, "rtpmap:") {
-					distinctMaps++
+					dm++
 				}
 			}
-			distinctFmtp := len(variants) - distinctMaps
-			if distinctMaps > 1 || distinctFmtp > 1 {
-				sig = "duplicate-pt-in-mline:different-codecs"
+			if dm > 1 || len(variants)-dm > 1 {
+				shape = "different codecs on one number"
 			}
-			add(sig, "payload type %s listed %d times", pt, n)
+			add("duplicate-pt-in-mline", "payload type %s listed %d times (%s)", pt, n, shape)
 		}
 	}
 	for _, a := range m.Attrs {
@@ -312,7 +310,6 @@ func c10GenEngine(r *kit.Rand) c10EngineSpec { //nolint:cyclop,gocognit
 		}
 		kit.Shuffle(r, pool)
 		var entries []RTPCodecParameters
-		var primaries []RTPCodecParameters
 		for len(entries) < n && len(pool) > 0 {
 			p := pool[0]
 			pool = pool[1:]
@@ -335,7 +332,6 @@ func c10GenEngine(r *kit.Rand) c10EngineSpec { //nolint:cyclop,gocognit
 				PayloadType:        PayloadType(pt),
 			}
 			entries = append(entries, c)
-			primaries = append(primaries, c)
 			// rtx for this primary
 			if kind == "video" && len(entries) < n && r.Chance(0.55) {
 				if rpt := draw(used); rpt >= 0 {
@@ -379,7 +375,6 @@ func c10GenEngine(r *kit.Rand) c10EngineSpec { //nolint:cyclop,gocognit
 				}
 			}
 		}
-		_ = primaries
 		switch r.Intn(3) {
 		case 0:
 			kit.Shuffle(r, entries) // rtx may precede its primary
@@ -490,6 +485,8 @@ func c10GenPrefs(r *kit.Rand, codecs []RTPCodecParameters) (prefs []RTPCodecPara
 	for i := range prefs {
 		if r.Chance(zeroP) {
 			prefs[i].PayloadType = 0
+		}
+		if prefs[i].PayloadType == 0 { // includes a codec that is registered on payload type 0
 			z++
 		}
 	}
@@ -533,6 +530,9 @@ type c10Case struct {
 	remot string
 	// some accepted SetCodecPreferences call carried an entry with PayloadType 0 (recorded in the replay detail)
 	pt0Prefs bool
+	pc       *PeerConnection
+	// per transceiver: class of the accepted user preferences ("" = none); transceivers absent from the map were created by SetRemoteDescription
+	userPrefs map[*RTPTransceiver]string
 	// the remote offer maps one extension URI to different ids in different sections (not BUNDLE-consistent)
 	inconsistent bool
 }
@@ -546,6 +546,43 @@ func (c *c10Case) step(op, detail string, err error) {
 }
 
 // check runs the oracle over one generated description.
+// dupCause names the scenario class of a duplicate payload type, from facts (not from the SDP text), so that different
+// causes get different signatures:
+//   - the MediaEngine's own codec list of that kind now holds a payload type twice (white-box: getCodecsByKind), i.e. the list the
+//     application registered was altered;
+//   - the section's transceiver carries user preferences with PayloadType-0 entries (resolved against local or negotiated numbers);
+//   - the section's transceiver was created by SetRemoteDescription (preferences derived from the remote section);
+//   - none of these.
+func (c *c10Case) dupCause(m *kit.SDPMedia) string {
+	kind := NewRTPCodecType(m.Kind)
+	seen := map[PayloadType]bool{}
+	for _, cd := range c.pc.api.mediaEngine.getCodecsByKind(kind) {
+		if seen[cd.PayloadType] {
+			return ":mediaengine-codec-list-altered"
+		}
+		seen[cd.PayloadType] = true
+	}
+	mid, _ := m.Mid()
+	for _, tr := range c.pc.GetTransceivers() {
+		if tr.Mid() != mid {
+			continue
+		}
+		class, local := c.userPrefs[tr]
+		switch {
+		case strings.Contains(class, "pt0") && c.remot != "":
+			return ":pt0-prefs-after-remote"
+		case strings.Contains(class, "pt0"):
+			return ":pt0-prefs"
+		case class != "":
+			return ":user-prefs"
+		case !local:
+			return ":transceiver-from-remote"
+		}
+	}
+
+	return ""
+}
+
 func (c *c10Case) check(what string, sd SessionDescription) {
 	d, err := kit.ParseSDP(sd.SDP)
 	if err != nil {
@@ -591,6 +628,9 @@ func (c *c10Case) check(what string, sd SessionDescription) {
 				continue
 			}
 			seen[f.Sig] = true
+			if f.Sig == "duplicate-pt-in-mline" {
+				f.Sig += c.dupCause(m)
+			}
 			if c.inconsistent && strings.HasPrefix(f.Sig, "extmap-") {
 				f.Sig += ":remote-extmap-inconsistent"
 			}
@@ -618,6 +658,7 @@ func (c *c10Case) addTransceivers(pc *PeerConnection, max int) {
 
 			continue
 		}
+		c.userPrefs[tr] = ""
 		if c.r.Chance(0.6) {
 			prefs, class := c10GenPrefs(c.r, c.spec.kind(ks))
 			ps := c10PrefsString(prefs) // before the call: SetCodecPreferences may reorder the caller's slice
@@ -628,6 +669,7 @@ func (c *c10Case) addTransceivers(pc *PeerConnection, max int) {
 			} else if len(prefs) > 0 {
 				c.prefs = true
 				c.pt0Prefs = c.pt0Prefs || strings.Contains(class, "pt0")
+				c.userPrefs[tr] = class
 				c.run.Seen("prefs_class", class)
 			}
 		}
@@ -643,6 +685,7 @@ func (c *c10Case) asOfferer() {
 		return
 	}
 	defer rigClose(pc)
+	c.pc = pc
 	c.addTransceivers(pc, 4)
 	offer, err := pc.CreateOffer(nil)
 	c.step("CreateOffer", "", err)
@@ -663,6 +706,7 @@ func (c *c10Case) asAnswerer() { //nolint:cyclop
 		return
 	}
 	defer rigClose(pc)
+	c.pc = pc
 	if c.r.Chance(0.5) {
 		c.addTransceivers(pc, 3) // pre-existing local transceivers (with preferences in local numbering)
 	}
@@ -703,6 +747,7 @@ func (c *c10Case) asAnswerer() { //nolint:cyclop
 			if err == nil && len(prefs) > 0 {
 				c.prefs = true
 				c.pt0Prefs = c.pt0Prefs || strings.Contains(class, "pt0")
+				c.userPrefs[tr] = class
 				c.run.Seen("prefs_class", class+"+after-remote")
 			}
 		}
@@ -761,7 +806,7 @@ func TestVerifC10(t *testing.T) {
 
 	n := kit.N(1000, 30000)
 	run.Parallel(n, 16, func(i int) {
-		c := &c10Case{run: run, idx: i, r: run.CaseRand(i)}
+		c := &c10Case{run: run, idx: i, r: run.CaseRand(i), userPrefs: map[*RTPTransceiver]string{}}
 		c.spec = c10GenEngine(c.r)
 		defer func() {
 			if p := recover(); p != nil {
